@@ -5,6 +5,8 @@ MATCHERS = os.path.join(engine.HARNESS, 'target', 'debug', 'matchers')
 DRIVER = os.path.join(engine.LEAN, '.lake', 'build', 'bin', 'driver')
 GEN_FILE = os.path.join(engine.HARNESS, 'src', 'gen_matching_cases.rs')
 
+NPOS = {}      # case id -> positions whose sub-pattern rejects, per domain tuple, by rustc itself (`x` where not applicable)
+
 def run_cases(cases):
     """write the generated source, build, run; -> (ok, real dict, model dict, log)"""
     src = gm.rust_file(cases)
@@ -17,9 +19,10 @@ def run_cases(cases):
     p = subprocess.run([MATCHERS], capture_output=True, text=True, timeout=900)
     real = {}
     for l in p.stdout.split('\n'):
-        m = re.match(r'case (\w+) un=(\S*) ord=(\S*) native=(\S*) diag=(.*)$', l.strip())
+        m = re.match(r'case (\w+) un=(\S*) ord=(\S*) native=(\S*) diag=(\S*) npos=(\S*)$', l.strip())
         if m:
-            real[m.group(1)] = m.groups()[1:]
+            real[m.group(1)] = m.groups()[1:5]
+            NPOS[m.group(1)] = m.group(6)
     mo = subprocess.run([DRIVER], input='\n'.join(gm.lean_line(c) for c in cases) + '\n', capture_output=True, text=True, timeout=900)
     model = {}
     for k, lines in mc.parse_items(mo.stdout).items():
